@@ -102,6 +102,12 @@ func runC19(c *core.Ctx) {
 			t = g.Around(k, t)
 		}
 	}
+	if c.Case%10 == 4 {
+		// two code layers of the same family: the outer one wins, also when it carries the
+		// "nothing attached" default value (codes.Unknown, which is 2)
+		inner := &gen.Node{Kind: "grpc", N: []int{[]int{1, 3, 5, 9, 14, 16}[c.R.Intn(6)]}, Kids: []*gen.Node{t}}
+		t = &gen.Node{Kind: "grpc", N: []int{[]int{2, 2, 7, 0}[c.R.Intn(4)]}, Kids: []*gen.Node{g.Around("hint", inner)}}
+	}
 	coverTree(c, t)
 	e, _, ok := safeBuild(c, t)
 	if !ok {
